@@ -93,6 +93,7 @@ func NewMonitor(publisher Publisher, handler Handler) (Monitor, error) {
 		return nil, err
 	}
 	m := &monitor{sub, handler, lifecycle.New()}
+	verifTrace(m, "mon.new", sub)
 	go m.run()
 	return m, nil
 }
@@ -108,11 +109,13 @@ func (m *monitor) run() {
 
 	select {
 	case <-m.sub.Done():
+		verifTrace(m, "mon.stopping", nil)
 		m.lc.ShutdownInitiated(nil)
 		return
 	case <-m.sub.Ready():
 		objs, err := m.sub.Cache().List()
 		if err != nil {
+			verifTrace(m, "mon.stopping", err)
 			m.lc.ShutdownInitiated(err)
 			m.sub.Close()
 			<-m.sub.Done()
@@ -124,10 +127,12 @@ func (m *monitor) run() {
 	for {
 		select {
 		case <-m.sub.Done():
+			verifTrace(m, "mon.stopping", nil)
 			m.lc.ShutdownInitiated(nil)
 			return
 		case ev, ok := <-m.sub.Events():
 			if !ok {
+				verifTrace(m, "mon.stopping", nil)
 				m.lc.ShutdownInitiated(nil)
 				<-m.sub.Done()
 				return
